@@ -382,6 +382,7 @@ func c06Cases(c *Ctx, w *prove.World, wt wireType, m, u *ssa.Function) {
 		}
 		r.OK("extract", key, pos, "enc ["+codec.Render(enc)+"] dec ["+codec.Render(dec)+"]")
 		c06Terminator(c, m, key, pos, enc)
+		c06LenSlot(c, w, m, em, k, key, pos, dec)
 		compareLayouts(c, "sym", key, pos, dropConst(enc), dec)
 		checkContig(c, key, pos, dec, 0)
 		if h := delegate[k]; h != nil {
